@@ -125,3 +125,99 @@ Section MemoryConc.
       exists (i :: sched). simpl. rewrite Es. exact Er.
   Qed.
 End MemoryConc.
+
+(* ------------------------------------------------------------------ the explorers are complete *)
+(* Every schedule that runs to a state in which no thread can move ends in a state the
+   explorer lists (given fuel for its length): the outcome sets the implementation is
+   compared with are exactly the terminal states of the three transition systems (for the
+   OCI system: of schedules whose Write steps are unsplit, chunk = big). *)
+Section ExploreComplete.
+  Variable H : str -> str -> str.
+  Local Open Scope nat_scope.
+
+  Lemma in_seq_lt i n : i < n -> In i (seq 0 n).
+  Proof. intro L. apply in_seq. split; [apply Nat.le_0_l|exact L]. Qed.
+
+  Lemma nth_error_lt {A} (l : list A) i x : nth_error l i = Some x -> i < length l.
+  Proof. intro E. apply nth_error_Some. congruence. Qed.
+
+  (* OCI *)
+  Definition cterminal big (st : cstate) : Prop := forall i, cstep H st i big = None.
+
+  Lemma cstep_index st i big st' : cstep H st i big = Some st' -> i < length (c_thr st).
+  Proof.
+    unfold cstep. destruct (nth_error (c_thr st) i) eqn:E; [|discriminate]. intros _. eapply nth_error_lt; eauto.
+  Qed.
+
+  Lemma explore_complete big sched : forall fuel st st',
+    crun H st (map (fun i => (i, big)) sched) = Some st' -> cterminal big st' ->
+    length sched < fuel -> In st' (explore H fuel big st).
+  Proof.
+    induction sched as [|i r IH]; intros fuel st st' E T L; (destruct fuel as [|f]; [simpl in L; exfalso; apply (Nat.nlt_0_r _ L)|]); simpl in *.
+    - inversion E; subst.
+      assert (N : flat_map (fun i => match cstep H st' i big with Some s => [s] | None => [] end) (seq 0 (length (c_thr st'))) = []).
+      { induction (seq 0 (length (c_thr st'))) as [|a l IHl]; simpl; auto. rewrite (T a). exact IHl. }
+      rewrite N. left; reflexivity.
+    - destruct (cstep H st i big) as [st1|] eqn:Es; [|discriminate].
+      set (nexts := flat_map (fun i => match cstep H st i big with Some s => [s] | None => [] end) (seq 0 (length (c_thr st)))).
+      assert (I1 : In st1 nexts).
+      { apply in_flat_map. exists i. split; [apply in_seq_lt; eapply cstep_index; eauto|]. rewrite Es. left; reflexivity. }
+      destruct nexts as [|n0 nr] eqn:En; [destruct I1|].
+      apply in_flat_map. exists st1. split; [exact I1|]. apply IH; auto. apply Nat.succ_lt_mono. exact L.
+  Qed.
+
+  (* cas.Memory *)
+  Definition mterminal (st : mstate) : Prop := forall i, mstep H st i = None.
+
+  Lemma mstep_index st i st' : mstep H st i = Some st' -> i < length (ms_thr st).
+  Proof.
+    unfold mstep. destruct (nth_error (ms_thr st) i) eqn:E; [|discriminate]. intros _. eapply nth_error_lt; eauto.
+  Qed.
+
+  Lemma explore_m_complete sched : forall fuel st st',
+    mrun H st sched = Some st' -> mterminal st' -> length sched < fuel -> In st' (explore_m H fuel st).
+  Proof.
+    induction sched as [|i r IH]; intros fuel st st' E T L; (destruct fuel as [|f]; [simpl in L; exfalso; apply (Nat.nlt_0_r _ L)|]); simpl in *.
+    - inversion E; subst.
+      assert (N : flat_map (fun i => match mstep H st' i with Some s => [s] | None => [] end) (seq 0 (length (ms_thr st'))) = []).
+      { induction (seq 0 (length (ms_thr st'))) as [|a l IHl]; simpl; auto. rewrite (T a). exact IHl. }
+      rewrite N. left; reflexivity.
+    - destruct (mstep H st i) as [st1|] eqn:Es; [|discriminate].
+      set (nexts := flat_map (fun i => match mstep H st i with Some s => [s] | None => [] end) (seq 0 (length (ms_thr st)))).
+      assert (I1 : In st1 nexts).
+      { apply in_flat_map. exists i. split; [apply in_seq_lt; eapply mstep_index; eauto|]. rewrite Es. left; reflexivity. }
+      destruct nexts as [|n0 nr] eqn:En; [destruct I1|].
+      apply in_flat_map. exists st1. split; [exact I1|]. apply IH; auto. apply Nat.succ_lt_mono. exact L.
+  Qed.
+
+  (* file.Store *)
+  Definition fterminal (st : fcstate) : Prop := forall i, fstep H st i = None.
+
+  Lemma fstep_index st i st' : fstep H st i = Some st' -> i < length (fc_thr st).
+  Proof.
+    unfold fstep. destruct (nth_error (fc_thr st) i) eqn:E; [|discriminate]. intros _. eapply nth_error_lt; eauto.
+  Qed.
+
+  Lemma explore_f_complete sched : forall fuel st st',
+    frun H st sched = Some st' -> fterminal st' -> length sched < fuel -> In st' (explore_f H fuel st).
+  Proof.
+    induction sched as [|i r IH]; intros fuel st st' E T L; (destruct fuel as [|f]; [simpl in L; exfalso; apply (Nat.nlt_0_r _ L)|]); simpl in *.
+    - inversion E; subst.
+      assert (N : flat_map (fun i => match fstep H st' i with Some s => [s] | None => [] end) (seq 0 (length (fc_thr st'))) = []).
+      { induction (seq 0 (length (fc_thr st'))) as [|a l IHl]; simpl; auto. rewrite (T a). exact IHl. }
+      rewrite N. left; reflexivity.
+    - destruct (fstep H st i) as [st1|] eqn:Es; [|discriminate].
+      set (nexts := flat_map (fun i => match fstep H st i with Some s => [s] | None => [] end) (seq 0 (length (fc_thr st)))).
+      assert (I1 : In st1 nexts).
+      { apply in_flat_map. exists i. split; [apply in_seq_lt; eapply fstep_index; eauto|]. rewrite Es. left; reflexivity. }
+      destruct nexts as [|n0 nr] eqn:En; [destruct I1|].
+      apply in_flat_map. exists st1. split; [exact I1|]. apply IH; auto. apply Nat.succ_lt_mono. exact L.
+  Qed.
+
+  (* a finished OCI race leaves nothing under ingest/ *)
+  Lemma ingest_empty_when_done st :
+    Forall (fun t => exists r, t_pc t = PDone r) (c_thr st) -> ingest_files st = [].
+  Proof.
+    unfold ingest_files. induction 1 as [|t l [r E] F IH]; simpl; auto. rewrite E. exact IH.
+  Qed.
+End ExploreComplete.
